@@ -19,10 +19,11 @@ logger = logging.getLogger(__name__)
 
 def _remove_unused_optional_outputs(
     node: ir.Node, graph_outputs: frozenset[ir.Value], onnx_opset_version: int
-) -> None:
+) -> bool:
+    """Remove unused optional outputs of the node. Return True if the node was changed."""
     try:
         if node.domain not in {"", "onnx.ai"}:
-            return
+            return False
         op_schema = onnx.defs.get_schema(node.op_type, onnx_opset_version, domain=node.domain)
     except Exception:  # pylint: disable=broad-exception-caught
         logger.info(
@@ -30,8 +31,9 @@ def _remove_unused_optional_outputs(
             node,
             stack_info=True,
         )
-        return
+        return False
 
+    modified = False
     if node.op_type == "BatchNormalization":
         # BatchNormalization op has 3 outputs: Y, running_mean, running_var
         # If running_mean and running_var are not used, remove them, and the training_mode attribute
@@ -42,26 +44,29 @@ def _remove_unused_optional_outputs(
             return False
 
         if is_used_output(1) or is_used_output(2):
-            return
-        if len(node.outputs) > 1:
-            node.outputs[1].name = ""
-        if len(node.outputs) > 2:
-            node.outputs[2].name = ""
-        node.attributes.pop("training_mode", None)
-        return
+            return False
+        for output in node.outputs[1:3]:
+            if output.name:
+                output.name = ""
+                modified = True
+        if node.attributes.pop("training_mode", None) is not None:
+            modified = True
+        return modified
 
     optional_info = []
     for o in op_schema.outputs:
         # Current ops do not have optional outputs if they have variable number of outputs
         if o.option == onnx.defs.OpSchema.FormalParameterOption.Variadic:
-            return
+            return False
         optional_info.append(o.option == onnx.defs.OpSchema.FormalParameterOption.Optional)
     # If no optional outputs in spec, skip delete operations
     if len([o == 1 for o in optional_info]) == 0:
-        return
+        return False
 
     for i, out in enumerate(node.outputs):
         if out not in graph_outputs and (not out.uses()) and optional_info[i] is True:
+            if out.name:
+                modified = True
             out.name = ""
 
     # Remove trailing outputs with empty names by counting backwards
@@ -71,10 +76,13 @@ def _remove_unused_optional_outputs(
             new_output_count -= 1
         else:
             break
+    if new_output_count != len(node.outputs):
+        modified = True
     node.resize_outputs(new_output_count)
+    return modified
 
 
-def _remove_trailing_empty_inputs(node: ir.Node) -> None:
+def _remove_trailing_empty_inputs(node: ir.Node) -> bool:
     # Remove trailing None inputs
     new_input_count = len(node.inputs)
     for i in reversed(range(len(node.inputs))):
@@ -82,7 +90,9 @@ def _remove_trailing_empty_inputs(node: ir.Node) -> None:
             new_input_count -= 1
         else:
             break
+    modified = new_input_count != len(node.inputs)
     node.resize_inputs(new_input_count)
+    return modified
 
 
 def _remove_unused_nodes_in_graph_like(function_or_graph: ir.Function | ir.Graph) -> int:
@@ -99,9 +109,13 @@ def _remove_unused_nodes_in_graph_like(function_or_graph: ir.Function | ir.Graph
             function_or_graph.remove(node, safe=True)
             count += 1
         else:
-            _remove_trailing_empty_inputs(node)
+            node_modified = _remove_trailing_empty_inputs(node)
             if onnx_opset_version is not None:
-                _remove_unused_optional_outputs(node, graph_outputs, onnx_opset_version)
+                node_modified |= _remove_unused_optional_outputs(
+                    node, graph_outputs, onnx_opset_version
+                )
+            # A node that lost inputs or outputs counts as a modification of the model
+            count += node_modified
             for attr in node.attributes.values():
                 if attr.type == ir.AttributeType.GRAPH:
                     count += _remove_unused_nodes_in_graph_like(attr.as_graph())
